@@ -45,7 +45,7 @@ ASSUMPTIONS = [
     "values come from a domain whose round-trip identity holds on the pinned tree; text outputs are compared through the library's own str()/repr() of the source values",
 ]
 EXPECTED_PROBES = ["faulty-first", "faulty-last", "faulty-between", "all-faulty", "truncated-nonempty-prefix", "skip-spans-source-boundary", "count-reached-before-failing-source",
-                   "split-multiple-of-limit", "zero-records-with-writer", "stdin-source", "read-error-source", "multi-timestamp-expanded", "same-name-different-fields", "grouped-record-source"]  # fmt: skip
+                   "split-multiple-of-limit", "zero-records-with-writer", "stdin-source", "read-error-source", "multi-timestamp-expanded", "same-name-different-fields", "grouped-record-source", "corrupt-compressed-source"]  # fmt: skip
 
 UTC = _dt.timezone.utc
 G = _dt.datetime(2030, 1, 1, tzinfo=UTC)
@@ -83,7 +83,7 @@ SELECTORS = [
     ("any(t in ['red', 'green'] for t in r.tags) and r.n > 1", lambda d: any(t in ["red", "green"] for t in d["tags"]) and d["n"] > 1),
 ]
 NEEDS_TAGS = {len(SELECTORS) - 2, len(SELECTORS) - 1}
-FAULT_KINDS = ["missing", "empty", "garbage", "dir", "trunc", "readerr", "badjson"]
+FAULT_KINDS = ["missing", "empty", "garbage", "dir", "trunc", "readerr", "badjson", "corrupt"]
 MODES = ["stream", "stream-gz", "jsonfile", "split", "jsonl", "json", "csv", "line", "line-verbose", "text", "list", "csvfile", "textfile", "linefile", "stdout-stream", "split-stdout"]
 
 
@@ -137,6 +137,12 @@ def gen_source(rng, kind, idx, tier="quick", only=None):
         if kind == "readerr":
             src["read_error_at"] = rng.choice([0, 1, 1, 2, 3])
             src["read_buffer"] = rng.choice([16, 64, 8192])
+    elif kind == "corrupt":
+        # a compressed source whose payload is damaged after a complete, flushed part: the decoder does not run out of
+        # data (EOFError), it hits invalid data (zlib.error, lz4 RuntimeError, ZstdError, OSError for bz2)
+        src["recs"] = [gen_rec(rng, i, only) for i in range(max(n, 2))]
+        src["codec"] = rng.choice(["gz", "lz4", "zst", "bz2"])
+        src["good"] = rng.randrange(0, len(src["recs"]) + 1)
     elif kind == "csv":
         # a CSV file: header row, every value is text (csv/reader records); an empty one is a source that fails at open
         # (at least two columns and plain tokens, so that the reader's dialect sniffing - C20's business - settles on ",")
@@ -401,6 +407,19 @@ def build_source(w, src, descs):
         if good:
             w.probe("truncated-nonempty-prefix")
         return name, good
+    if kind == "corrupt":
+        import zlib
+
+        k = src["good"]
+        head = data[: ends[k - 1]] if k else data[:19]
+        if codec == "gz":
+            c = zlib.compressobj(6, zlib.DEFLATED, 31)
+            blob = c.compress(head) + c.flush(zlib.Z_FULL_FLUSH) + b"\x07\xff\xff"  # a block of the reserved type
+        else:
+            blob = compress(codec, head) + b"\x00garbage after the frame\xff\xfe"
+        w.fs.put(name, blob)
+        w.probe("corrupt-compressed-source")
+        return name, ("prefix-of", recs[:k])
     if kind == "readerr":
         w.fs.put(name, blob)
         w.probe("read-error-source")
@@ -660,6 +679,9 @@ def execute(plan, keep_log=False):
                 else:
                     expected_records.append(("prefix", recs))
                     exact = False
+            elif isinstance(exp, tuple) and exp and exp[0] == "prefix-of":
+                expected_records.append(("prefix", exp[1]))
+                exact = False
             else:
                 expected_records.append(("exact", exp))
         if rc not in (None, 0):
